@@ -26,6 +26,10 @@ CHECKS.update({
  "C09": ("Finished elections of every rule on proxies; per round: replayed profile's candidates and re-scoring by definition vs recorded state, cumulative queries vs per-round records, negative/out-of-range indices; purity as an inductive step (structural snapshot of the object before/after each query); symbolic integer round index on concrete finished elections.", "§4 C09"),
  "C10": ("All non-random rules with random stubs forking over every outcome; every recorded tiebreak is checked by z3 to be genuine (equal deciding tallies), decisive, a strict order obeyed by the round, and score-ordered for borda/first_place with random fallback only among still-tied candidates; draws not covered by a record are reported.", "§4 C10"),
 })
+CHECKS.update({
+ "C13": ("IRV/SNTV/SequentialRCV vs their documented reference (STV m=1, Plurality, STV with a harness-written full-weight transfer) compared round by round under one path condition and the same recorded random stream; TopTwo and Alaska vs the composition written from the statement (finalists/kept candidates by definition tallies, reduced profile by spec image, independently constructed second-stage STV, round renumbering).", "§4 C13"),
+ "C20": ("One harness per documented precondition with the violating quantity symbolic (integer seat counts incl. Alaska's stages, rational score-vector entries, rating limit/budget, ballot weights; defective ballot at every index) and both directions asserted: documented exception iff precondition violated. Quota names / duplicate candidates: direct evaluation (labelled). Generator parameter checks are covered with C14's harnesses when present.", "§4 C20"),
+})
 NOT_APPLICABLE = {}
 def main():
     props = [json.loads(l)["id"] for l in open(os.path.join(ROOT, "properties.jsonl"))]
